@@ -7,4 +7,12 @@ import (
 	"verif/engine/common"
 )
 
-func main() { os.Exit(common.Main(c02.Check(), os.Args[2:])) }
+func main() {
+	// One case of the thorough tier tokenizes up to 1M tokens / 10 MiB (5-20 s on an idle
+	// core with the pinned tokenizer's position conversion, several times that on a loaded
+	// machine): give the parent's silence watchdog more room than the default 120 s.
+	if os.Getenv("VERIF_HANG_S") == "" {
+		os.Setenv("VERIF_HANG_S", "600")
+	}
+	os.Exit(common.Main(c02.Check(), os.Args[2:]))
+}
